@@ -230,6 +230,15 @@ def method_unit(prop, fn, doms, on='regs', spec=None, contract=None, contracts=N
             for k, f in fixed.items():
                 if not callable(f):
                     ins[k] = f
+                else:
+                    # a leaf derived from fresh inputs (e.g. CPSR with the T bit of the unit's instruction set): the same
+                    # derivation on the concrete model values
+                    try:
+                        v = f(NativeEng(ins), None)
+                        if isinstance(v, (int, bool)):
+                            ins[k] = v
+                    except Exception:       # noqa
+                        pass
         MC2.install_native(cpu, ins, memarch, nregions)
         if fixed and getattr(method_unit, '_fix_native', None):
             pass
